@@ -25,7 +25,7 @@ META = {
         "abelian_core.AbelianArray.einsum",
     ],
     "floors": {
-        "quick": {"evaluations": 3000, "distinct_nontrivial": 600, "tables": {"op/tensordot": 1500, "op/matmul": 200, "op/trace": 100, "op/einsum": 200, "mode/fused": 300, "mode/blockwise": 300, "noalign": 10}},
+        "quick": {"evaluations": 3000, "distinct_nontrivial": 600, "tables": {"op/tensordot": 1500, "op/matmul": 200, "op/trace": 100, "op/einsum": 200, "mode/fused": 300, "mode/blockwise": 300, "noalign": 10, "op/self-contraction": 3000}},
         "thorough": {"evaluations": 150000, "distinct_nontrivial": 30000, "tables": {"op/tensordot": 80000, "op/matmul": 10000, "op/trace": 5000, "op/einsum": 10000, "noalign": 500}},
     },
     "wall": {"quick": 100, "thorough": 1500},
@@ -113,6 +113,49 @@ def case_tensordot(ctx, rng):
     if k >= 1 and nz and (cmp.has_missing(a) or cmp.has_missing(b)):
         ctx.nontrivial(("td", via, mode, struct_sig(a), struct_sig(b), tuple(axa), tuple(axb)))
         ctx.sample({"op": "tensordot", "via": via, "axes": repr(axes), "mode": mode, "a": describe(a), "b": describe(b), "result_sectors": [repr(s) for s in res.blocks]})
+
+
+def case_self(ctx, rng):
+    """The SAME object as both operands (squaring an operator): legs k..2k-1 are the conjugates
+    of legs 0..k-1 and are contracted with them."""
+    import autoray as ar
+
+    sr = ctx.sr
+    sym = rng.choice(gen.SYMS5)
+    k = rng.choice([1, 2, 2, 3])
+    vals = gen.Values(rng, "int", dtype_for(rng))
+    head = [gen.rand_index(sr, rng, sym, maxc=3, maxd=2) for _ in range(k)]
+    idx = head + [gen.conj_index(sr, ix) for ix in head]
+    x = gen.make_array(sr, rng, sym, idx, charge=R.identity(sym) if rng.random() < 0.7 else None, values=vals, sparsity=rng.choice([0.0, 0.3, 0.6]))
+    if not x.blocks:
+        return
+    axa, axb = list(range(k, 2 * k)), list(range(k))
+    if rng.random() < 0.5:
+        p_ = rng.sample(range(k), k)
+        axa, axb = [axa[i] for i in p_], [axb[i] for i in p_]
+    d = embed(x)
+    exp = np.tensordot(d, d, axes=(axa, axb))
+    ref = [x.indices[i] for i in range(2 * k) if i not in axa] + [x.indices[i] for i in range(2 * k) if i not in axb]
+    mode = rng.choice(MODES)
+    via = rng.choice(["function", "autoray", "matmul"]) if k == 1 else rng.choice(["function", "autoray"])
+    wit = {"op": "tensordot(x, x)", "via": via, "axes": [axa, axb], "mode": mode, "x": describe(x, True)}
+    if via == "matmul":
+        o = ctx.call(lambda: x @ x)
+    else:
+        fn = sr.tensordot if via == "function" else (lambda a, b, **kw: ar.do("tensordot", a, b, **kw))
+        o = ctx.call(fn, x, x, axes=(axa, axb), mode=mode, preserve_array=True)
+    ctx.evaluated()
+    ctx.count("op", "self-contraction")
+    ctx.count("mode", str(mode))
+    if not o.ok:
+        ctx.violation(f"tensordot-raises-{o.excname}", f"contracting an array with itself raised {o.exc!r}", wit)
+        return
+    m = cmp.compare_array(o.value, ref, exp, True, 1.0, 1e-10)
+    if m:
+        ctx.violation(f"tensordot-{'structure' if 'index' in m or 'layout' in m else 'value'}", f"tensordot(x, x), mode={mode}: {m}", wit)
+        return
+    if k >= 2 and cmp.has_missing(x) and np.any(exp != 0):
+        ctx.nontrivial(("self", mode, via, struct_sig(x), tuple(axa)))
 
 
 def case_matmul(ctx, rng):
@@ -243,6 +286,8 @@ def case_einsum(ctx, rng):
 def run(ctx):
     for _, rng in ctx.cases("tensordot", ctx.budget(200000, 4000000)):
         ctx.run_case(case_tensordot, ctx, rng)
+    for _, rng in ctx.cases("self", ctx.budget(12000, 250000)):
+        ctx.run_case(case_self, ctx, rng)
     for _, rng in ctx.cases("matmul", ctx.budget(30000, 600000)):
         ctx.run_case(case_matmul, ctx, rng)
     for _, rng in ctx.cases("trace", ctx.budget(15000, 300000)):
